@@ -1,7 +1,7 @@
 SPECIFICATION Spec
 CONSTANTS
   Mode = "mc"
-  MaxNodes = 10
+  MaxNodes = 9
   Enabled = {"Module", "Fn", "Var", "Set", "Call", "BCall", "Loop", "Goto", "Label", "Deref", "TyPrim"}
   FlagSets <- FlagSets_none
   VarForms <- VarForms_all
